@@ -1,11 +1,13 @@
+\* UDF node: stopUDF aborts the UDF on every graceful stop.
+\* Expected: NoAcceptedLoss is violated (KNOWN FINDING udf-stop-aborts, not repaired).
 SPECIFICATION Spec
 CONSTANTS
-    MaxPts = 4
-    K = 2
-    BufSize = 2
-    Topos <- MCTopos
+    MaxPts = 2
+    K = 1
+    BufSize = 1
+    Topos <- MCUdfOnly
     StopKinds <- BothKinds
-    AllowFail = TRUE
+    AllowFail = FALSE
     MaxN = 3
     MaxE = 4
     InfluxStopF = FALSE
@@ -15,10 +17,4 @@ CONSTANTS
 INVARIANTS
     TypeOK
     NoAcceptedLoss
-    AckedAllForked
-    NoSilentDrop
-    NoDuplicate
-    NothingInvented
-    NoCollectOnClosed
-    StoppedMeansQuiet
 CHECK_DEADLOCK TRUE
